@@ -37,7 +37,7 @@ fn main() {
     let start = Instant::now();
     let only = std::env::var("VERIF_ENGINE").ok();
     let scale: u64 = std::env::var("VERIF_SCALE").ok().and_then(|s| s.parse().ok()).unwrap_or(1);
-    let (gc_scenarios, enum_every, heap_runs) = if tier == "thorough" { (600_000 * scale, 40, 40_000_000 * scale) } else { (24_000 * scale, 80, 1_500_000 * scale) };
+    let (gc_scenarios, enum_every, heap_runs) = if tier == "thorough" { (600_000 * scale, 40, 40_000_000 * scale) } else { (36_000 * scale, 80, 2_000_000 * scale) };
     let (gc_scenarios, heap_runs) = (util::runs_override(gc_scenarios), util::runs_override(heap_runs));
     println!("C03 tier={tier} seed={root} workers={workers}");
 
